@@ -201,6 +201,33 @@ def run_plan(plan: dict) -> dict:
             C["probe.scipy_non_worsening_checked"] += 1
             if math.isnan(f1) or f1 > f0 + 1e-6 * (1 + abs(f0)):
                 violation(out, "non_worsening", f"objective_worse_than_start:{info['family']}", f"{where}: {pid}: f(start)={f0!r} f(returned)={f1!r} after {len(ev)} evaluations")
+        # the estimate returned under an identifier belongs to *that* individual: re-evaluate the returned point on a state
+        # the harness builds itself from the input rows of that individual, and compare with the loss the optimiser ended with
+        if not info["event"]:
+            from leaspy.io.data import Dataset
+
+            for pid in got_ids:
+                ev = world.evals.get(pid)
+                if not ev:
+                    continue
+                try:
+                    with ac.quiet():
+                        sub = df[df["ID"] == pid].reset_index(drop=True)
+                        ds = Dataset(workload.to_data(sub, kind), no_warning=True)
+                        st_ = model.state.clone(disable_auto_fork=True)
+                        model.put_data_variables(st_, ds)
+                        for k_, v_ in vals[pid].items():
+                            st_[k_] = torch.tensor(v_, dtype=torch.float32).reshape(1, -1)
+                        loss = float(st_["nll_attach"] + st_["nll_regul_ind_sum"])
+                except Exception as e:
+                    C["skip.reevaluation_error:" + type(e).__name__] += 1
+                    continue
+                C["probe.returned_point_reevaluated"] += 1
+                f1 = ev[-1][1]
+                if not (abs(loss - f1) <= 1e-3 * (1 + abs(f1))):
+                    violation(out, "alignment", f"estimate_not_optimised_on_own_data:{info['family']}:{'unsorted_ids' if got_ids != sorted(got_ids) else 'sorted_ids'}",
+                              f"{where}: {pid}: objective of the returned point on this individual's own rows = {loss!r}, optimiser ended at {f1!r}")
+                    break
         log.add("scipy", [len(world.evals.get(p, [])) for p in got_ids], world.interleaving_switches)
     else:
         nb_adm = expected_burn_in(plan)
